@@ -2,8 +2,8 @@ SPEC = dict(
     id="C21",
     bin="c21",
     cases_quick=1500,
-    cases_thorough=60000,
-    shard=100,
+    cases_thorough=20000,
+    shard=200,
     level="proof",
     technique="Coq simulation proof: the revision-stamped copy-on-write buffer (storage entries, buffer entries, buffer revision; start / get / get_mut / commit exactly as buffer.rs) refines plain transactions over a store with a per-operation write-set, for arbitrary histories; differential correspondence on histories of the REAL RevertibleMarket on a real Market account (RevertibleMarket::new, accesses through its gmsol-model trait impls for all 16 pool kinds, clocks and other state, commit or drop), with the committed storage read back through Market getters and the MarketStateUpdated CPI event decoded; independent transaction-semantics oracle on the Rust outputs",
     text="For every history of operations (begin, any reads and writes of pools, clocks and other state, then commit or abandon; repeated abandonment; empty commits; clock changes in between): stored state changes only on commit, commit writes exactly the keys the operation accessed mutably with the values it observed, an operation reads its own writes, and a new operation never sees anything left in the buffer by an abandoned one (invariant: entry.rev <= buffer.rev, strictly below after start).",
